@@ -1,7 +1,9 @@
 """C04 - the reply stream is always well-formed RESP, whatever clients or handlers supply."""
 import itertools
 import json
+import os
 import random
+import threading
 import connlib
 import cmdlib
 import vlib
@@ -136,9 +138,33 @@ def run(ctx):
     else:
         scenarios = scenarios_for(ctx.seed, 50000 if thorough else 1500)
     ctx.stage("generate")
+    # meanwhile, on a real socket: a client stops reading in the middle of a 24 MiB reply for 12 s (longer than a plausible
+    # write timeout) and then goes on (runs beside the in-memory scenarios: it mostly sleeps)
+    slow = {}
+
+    def slow_reader():
+        t = os.path.join(ctx.work, "slowreader.ndjson")
+        try:
+            ctx.harness(["slowreader", "--out", t, "--stall-ms", 30000 if thorough else 12000], timeout=300)
+            slow["trace"] = t
+        except vlib.Inconclusive as e:
+            slow["error"] = str(e)
+    th = threading.Thread(target=slow_reader)
+    if not ctx.replay:
+        th.start()
     accepted, scs, lines = connlib.run_scenarios(ctx, scenarios, "c04")
     groups = connlib.report(ctx, accepted, scs, lines, None)
     connlib.violations_from_groups(ctx, groups, lines, lambda sc: scenarios[sc // 10000 - 1])
+    if not ctx.replay:
+        th.join()
+        if "error" in slow:
+            raise vlib.Inconclusive(slow["error"])
+        sacc, ss, sl = ctx.validate(slow["trace"], "TraceRESP", stateful=False)
+        if ss[0] not in sacc:
+            ev = json.loads(sl[ss[0]][0])
+            ctx.violation("slow reader on a real socket: the reply stream is torn: declared %d payload %d terminator %s then %r (eof=%s)" % (
+                ev["declared"], ev["payload"], ev["term"], bytes(ev["rest"]), ev["eof"]), {"event": ev, "cmd": "vharness slowreader --stall-ms %d" % ev["stall_ms"]})
+        ctx.stage("slow-reader")
     shapes = set()
     nframes = 0
     samples = []
